@@ -163,6 +163,10 @@ pub struct NoInfoG<T>(pub T);
 pub struct Inner<T>(pub T);
 #[derive(TypeInfo)]
 pub struct InnerLt<'a>(pub &'a str);
+#[derive(TypeInfo)]
+pub enum Mode { Strict }
+#[derive(TypeInfo)]
+pub struct UnitS;
 '''
     progs.write_if_changed(os.path.join(FP, 'src', 'prelude.rs'), prelude)
     defs = corpus_sources(thorough)
@@ -198,6 +202,8 @@ pub struct InnerLt<'a>(pub &'a str);
     b = ['#![allow(dead_code, unused_imports)]', 'use crate::prelude::*;', 'use std::rc::Rc;', 'use std::sync::Arc;', 'use std::borrow::Cow;', 'use std::collections::{BTreeMap, BTreeSet, BinaryHeap, VecDeque};',
          'pub fn metas() -> Vec<MetaType> {', '    let mut v = Vec::new();']
     b += ['    v.push(meta_type::<%s>());' % s for s in plain]
+    # a type that is only ever NAMED: an array longer than u32::MAX elements (the recorded length is what `N as u32` gives on every target)
+    b += ['    v.push(meta_type::<[u8; (1usize << 32) + 7]>());', '    v.push(meta_type::<[[bool; 2]; (1usize << 33)]>());']
     b += ['    v.push(meta_type::<char>());', '    v', '}', '#[cfg(feature = "bit-vec")]', 'pub fn bit_metas() -> Vec<MetaType> {', '    let mut v = Vec::new();']
     b += ['    v.push(meta_type::<%s>());' % s for s in bits]
     b += ['    v', '}']
